@@ -167,7 +167,7 @@ func c04Name(style, id string) string {
 type c04Case struct {
 	Layout string   `json:"layout"`
 	Kind   string   `json:"kind"`           // ins-values | ins-multi | ins-set | replace | update | delete | select | select-join | select-comma
-	Qual   string   `json:"qual"`           // bare | tbl | db | alias | dbalias | colq (insert: qualified column list)
+	Qual   string   `json:"qual"`           // bare | tbl | db | alias | dbalias | dbaliasq (db.alias.col) | colq (insert: qualified column list)
 	Where  string   `json:"where"`          // none | eq | in | between
 	Name   string   `json:"name,omitempty"` // spelling of table names: "" (lower) | upper | mixed | bq | bqupper
 	Extra  []string `json:"extra,omitempty"`
@@ -203,6 +203,8 @@ func c04Ref(l *c04Layout, name, qual, tbl, alias string) (ref, q string) {
 		return tbl + " AS " + alias, alias + "."
 	case "dbalias":
 		return db + "." + tbl + " AS " + alias, alias + "."
+	case "dbaliasq": // columns written db.alias.col: the schema qualifier in front of an alias is rewritten like one in front of the table name
+		return db + "." + tbl + " AS " + alias, db + "." + alias + "."
 	}
 	return tbl, ""
 }
@@ -442,6 +444,11 @@ func c04Minimize(cs *c04Case, clause string) (*c04Case, string) {
 			x := cur
 			x.Qual = "bare"
 			cands = append(cands, &x)
+			if cur.Qual == "dbaliasq" {
+				y := cur
+				y.Qual = "dbalias"
+				cands = append(cands, &y)
+			}
 			if cur.Qual == "dbalias" || cur.Qual == "colq" {
 				y := cur
 				y.Qual = "db"
@@ -494,7 +501,7 @@ func c04Minimize(cs *c04Case, clause string) (*c04Case, string) {
 }
 
 var c04Kinds = []string{"ins-values", "ins-multi", "ins-set", "replace", "update", "delete", "select", "select-join", "select-comma"}
-var c04Quals = []string{"bare", "tbl", "db", "alias", "dbalias", "colq"}
+var c04Quals = []string{"bare", "tbl", "db", "alias", "dbalias", "dbaliasq", "colq"}
 var c04Wheres = []string{"none", "eq", "in", "between"}
 
 func c04ExtrasFor(kind string) []string {
@@ -513,11 +520,11 @@ func c04QualsFor(kind string) []string {
 	if strings.HasPrefix(kind, "ins") || kind == "replace" {
 		return []string{"bare", "tbl", "db", "colq"}
 	}
-	return []string{"bare", "tbl", "db", "alias", "dbalias"}
+	return []string{"bare", "tbl", "db", "alias", "dbalias", "dbaliasq"}
 }
 
 func TestVerif_C04(t *testing.T) {
-	rec := kit.Start("C04", "exploration", "statements over global tables only = layout (1..4 slices x 1..3 locations each x implicit/range/list physical databases) x kind (INSERT values/multi/SET, REPLACE, UPDATE, DELETE, SELECT, two-table JOIN / comma join) x qualification (bare, table, db.table, alias, db.table alias, qualified insert columns) x WHERE form x {ORDER BY, LIMIT, explicit field list, ON DUPLICATE KEY UPDATE}; non-trivial = distinct (layout class, slices, kind, qualification, where, extras) of accepted statements on layouts with more than one copy")
+	rec := kit.Start("C04", "exploration", "statements over global tables only = layout (1..4 slices x 1..3 locations each x implicit/range/list physical databases) x kind (INSERT values/multi/SET, REPLACE, UPDATE, DELETE, SELECT, two-table JOIN / comma join) x qualification (bare, table, db.table, alias, db.table alias, db.table alias with db.alias.col columns, qualified insert columns) x WHERE form x {ORDER BY, LIMIT, explicit field list, ON DUPLICATE KEY UPDATE}; non-trivial = distinct (layout class, slices, kind, qualification, where, extras) of accepted statements on layouts with more than one copy")
 	rec.Assume("the copies of a global table are the distinct (slice, physical database) pairs of its configuration: slices x locations, databases expanded by the documented prefix[lo-hi] rule, or the logical database when no list is given")
 	rec.Assume("the rule's slice list equals the namespace's slice list (NewRouter overwrites it with the namespace list anyway); both global tables of a join share one layout")
 	defer rec.Finish(t)
